@@ -90,6 +90,13 @@ CHECKS = [
              "strong Wolfe conditions for the returned point (with the code's own c1, c2 and with non-default ones); energies "
              "handed to the controller never increase; L_BFGS and VL_BFGS directions coincide for any history with s.y > 0.",
      "design_ref": "DESIGN.md 4/C16"},
+    {"property_id": "C19", "engine": "A", "category": "other", "technique": TECH_A + "; oracle = explicit sample average of the full Hamiltonian evaluated at every full sample",
+     "note": NOTE_A + " Classic driver only; the JAX kl_value_and_grad/kl_metric functions are outside this check. Known finding: the KL value lacks the prior energy of constant keys (root cause: C04 finding).",
+     "text": "Bounded symbolic verification of SampledKLEnergyClass on ResidualSampleLists of symbolic residuals (1-3 samples, "
+             "mirrored pairs, 2-3 keys, every constants x point-estimates split): for ALL means, residuals, data and directions z3 "
+             "refutes value, gradient and metric differing from the explicit sample average of the Hamiltonian (non-constant "
+             "block); constants are absent from the position and untouched by at(), at() keeps the residuals.",
+     "design_ref": "DESIGN.md 4/C19"},
 ]
 
 ALL = [f"C{i:02d}" for i in range(1, 37)]
